@@ -366,7 +366,7 @@ fn easter_spec() {
     vcover!("easter.march", m == 3);
 }
 
-//@H props=C01,C04,C08 tier=quick kind=complete cap=1500 domain="years 1899..=10010, all months, days 1..=31"
+//@H props=C01,C02,C04,C08 tier=quick kind=complete cap=1500 domain="years 1899..=10010, all months, days 1..=31"
 #[cfg_attr(kani, kani::proof)]
 #[cfg_attr(kani, kani::unwind(6))]
 #[cfg_attr(verif_replay, test)]
